@@ -716,6 +716,10 @@ def norm_name(s):
 @check("C18")
 def c18(ctx):
     props.check_props_file(ctx, "Props/C18.v")
+    # the operator / predicate methods and their optional refinements (Escape): Model/Ctor.v's tables binops / matchops
+    # say which symbol each method denotes; every call of the systematic catalogue is compared with them
+    live, tail, diffs = api_correspondence(ctx, 2500 if ctx.quick() else 25000)
+    api_composition_search(ctx, tail, diffs, "an operator method (or its optional refinement) emits another operator than the one it is named after")
     cases = special_mode_cases(ctx, "c18", [])
     ev = 0
     names = set()
@@ -763,6 +767,9 @@ def c18(ctx):
                 arg = "(zz)" if c["name"] in ("In", "NotIn") else "zz"
                 if c["sql"] != f"lhs {OP_SYMBOLS[c['name']]} {arg}":
                     ctx.violation("operator method does not emit the operator it is named after", rep)
+            elif c["name"].endswith(".Escape") and c["name"][:-7] in OP_SYMBOLS:
+                if c["sql"] != f"lhs {OP_SYMBOLS[c['name'][:-7]]} zz ESCAPE '!'":
+                    ctx.violation("the optional ESCAPE argument changes the operator the method is named after", rep)
             elif c["name"] in SUFFIX_SYMBOLS:
                 if c["sql"] != f"lhs {SUFFIX_SYMBOLS[c['name']]}":
                     ctx.violation("predicate method does not emit the predicate it is named after", rep)
@@ -1108,45 +1115,46 @@ def c09(ctx):
     offenders_hist = Counter()
     seen = set()
     for c, (names, types, info) in zip(cases, per_case):
-        r = c["renders"][0]          # validation on, plain
-        if r.get("panic") or r.get("missing"):
-            continue
-        ev += 1
-        bad_n = [x for x in names if not valid_n[x]]
-        bad_t = [x for x in types if not valid_t[x]]
-        offenders_hist[min(len(bad_n) + len(bad_t), 7)] += 1
-        msg = bytes.fromhex(r["err"]) if r["err"] else b""
-        rep = {"prog": c["prog"], "offending_names": [x.decode("utf8", "replace") for x in bad_n],
-               "offending_types": [x.decode("utf8", "replace") for x in bad_t],
-               "err": msg.decode("utf8", "replace"), "sql": bytes.fromhex(r["sql"]).decode("utf8", "replace")}
-        problems = []
-        if (r["err"] is None) and (bad_n or bad_t):
-            problems.append("rendering succeeded although a name or type is invalid")
-        n_id = msg.count(b"identifier: invalid: ")
-        n_ty = msg.count(b"type: invalid: ")
-        if n_id != len(bad_n) or n_ty != len(bad_t):
-            problems.append(f"{len(bad_n)} invalid names / {len(bad_t)} invalid types composed, "
-                            f"{n_id} / {n_ty} reported")
-        for x in set(bad_n):
-            if b"identifier: invalid: " + x not in msg:
-                problems.append("an offending name is not reported")
-        for x in set(bad_t):
-            if b"type: invalid: " + x not in msg:
-                problems.append("an offending type is not reported")
-        if bad_n and "ErrInvalidIdentifier" not in (r.get("err_is") or []):
-            problems.append("errors.Is(err, ErrInvalidIdentifier) is false")
-        if bad_t and "ErrInvalidType" not in (r.get("err_is") or []):
-            problems.append("errors.Is(err, ErrInvalidType) is false")
-        if problems:
-            if info.get("branch_tail"):
-                known.setdefault("D5-setop-branch-tail", rep)
-            elif info.get("abort"):
-                known.setdefault("D10-offender-after-structural-abort", rep)
-            else:
-                ctx.violation("; ".join(sorted(set(problems))), rep)
-        elif (bad_n or bad_t) and c["dump"] not in seen:
-            seen.add(c["dump"])
-            nontriv += 1
+      for ri in (0, 2):                # validation on: plain, pretty printed
+          r = c["renders"][ri]
+          if r.get("panic") or r.get("missing"):
+              continue
+          ev += 1
+          bad_n = [x for x in names if not valid_n[x]]
+          bad_t = [x for x in types if not valid_t[x]]
+          offenders_hist[min(len(bad_n) + len(bad_t), 7)] += 1
+          msg = bytes.fromhex(r["err"]) if r["err"] else b""
+          rep = {"prog": c["prog"], "pretty_print": ri == 2, "offending_names": [x.decode("utf8", "replace") for x in bad_n],
+                 "offending_types": [x.decode("utf8", "replace") for x in bad_t],
+                 "err": msg.decode("utf8", "replace"), "sql": bytes.fromhex(r["sql"]).decode("utf8", "replace")}
+          problems = []
+          if (r["err"] is None) and (bad_n or bad_t):
+              problems.append("rendering succeeded although a name or type is invalid")
+          n_id = msg.count(b"identifier: invalid: ")
+          n_ty = msg.count(b"type: invalid: ")
+          if n_id != len(bad_n) or n_ty != len(bad_t):
+              problems.append(f"{len(bad_n)} invalid names / {len(bad_t)} invalid types composed, "
+                              f"{n_id} / {n_ty} reported")
+          for x in set(bad_n):
+              if b"identifier: invalid: " + x not in msg:
+                  problems.append("an offending name is not reported")
+          for x in set(bad_t):
+              if b"type: invalid: " + x not in msg:
+                  problems.append("an offending type is not reported")
+          if bad_n and "ErrInvalidIdentifier" not in (r.get("err_is") or []):
+              problems.append("errors.Is(err, ErrInvalidIdentifier) is false")
+          if bad_t and "ErrInvalidType" not in (r.get("err_is") or []):
+              problems.append("errors.Is(err, ErrInvalidType) is false")
+          if problems:
+              if info.get("branch_tail"):
+                  known.setdefault("D5-setop-branch-tail", rep)
+              elif info.get("abort"):
+                  known.setdefault("D10-offender-after-structural-abort", rep)
+              else:
+                  ctx.violation("; ".join(sorted(set(problems))), rep)
+          elif (bad_n or bad_t) and ri == 0 and c["dump"] not in seen:
+              seen.add(c["dump"])
+              nontriv += 1
     listed = {k["id"] for k in known_for("C09")}
     for kid, rep in known.items():
         if kid in listed:
